@@ -61,30 +61,51 @@ def rand_vals(rnd, n, mag):
     return out
 
 
-def make_features(rnd):
+def make_features(rnd, base=None, archetype=None):
+    """A tiny codec configuration.  With `base` (a configuration drawn earlier) the video format, profile and
+    picture coding mode (everything the sequence header fixes) are kept and only the per-picture transform /
+    slice parameters are drawn afresh.  archetype "asym_default": the only wavelet pair with differing indices
+    for which Annex D has default matrices (haar_no_shift x le_gall_5_3) with the default matrix."""
     from vc2_conformance.codec_features import CodecFeatures
     from vc2_conformance.pseudocode.video_parameters import VideoParameters
     from vc2_data_tables import QUANTISATION_MATRICES
 
-    hq = rnd.random() < 0.55
-    w = rnd.choice([4, 6, 8, 8, 12])
-    h = rnd.choice([2, 4, 4, 6])
-    fields = rnd.random() < 0.25
-    if fields:
-        h = rnd.choice([4, 8])
-    cd = rnd.choice([0, 0, 1, 2])
-    if cd and w % 2:
-        w += 1
-    if cd == 2 and (h // (2 if fields else 1)) % 2:
-        h *= 2
+    if base is None:
+        hq = rnd.random() < 0.55
+        w = rnd.choice([4, 6, 8, 8, 12])
+        h = rnd.choice([2, 4, 4, 6])
+        fields = rnd.random() < 0.25
+        if fields:
+            h = rnd.choice([4, 8])
+        cd = rnd.choice([0, 0, 1, 2])
+        if cd and w % 2:
+            w += 1
+        if cd == 2 and (h // (2 if fields else 1)) % 2:
+            h *= 2
+        vp = VideoParameters(
+            frame_width=w, frame_height=h, color_diff_format_index=cd, source_sampling=1 if fields and rnd.random() < 0.5 else 0,
+            top_field_first=True, frame_rate_numer=25, frame_rate_denom=1, pixel_aspect_ratio_numer=1, pixel_aspect_ratio_denom=1,
+            clean_width=w, clean_height=h, left_offset=0, top_offset=0, luma_offset=0, luma_excursion=255,
+            color_diff_offset=128, color_diff_excursion=255, color_primaries_index=0, color_matrix_index=0, transfer_function_index=0,
+        )
+    else:
+        hq = base["profile"] == 3
+        fields = base["picture_coding_mode"] == 1
+        vp = base["video_parameters"]
     wi = rnd.choice([0, 1, 2, 3, 4, 4, 5, 6])
     depth = rnd.choice([0, 1, 1, 2])
     depth_ho = rnd.choice([0, 0, 0, 1])
     wi_ho = wi if rnd.random() < 0.75 else rnd.choice([1, 3, 4])
     sx = rnd.choice([1, 2, 2, 4])
     sy = rnd.choice([1, 1, 2])
+    custom = rnd.random() < 0.25
+    if archetype == "asym_default":
+        wi, wi_ho = 3, 1
+        depth = rnd.choice([1, 1, 2, 3])
+        depth_ho = rnd.choice([0, 0, 0, 1, 2])
+        custom = False
     qm = None
-    if (wi, wi_ho, depth, depth_ho) not in QUANTISATION_MATRICES or rnd.random() < 0.25:
+    if (wi, wi_ho, depth, depth_ho) not in QUANTISATION_MATRICES or custom:
         qm = {}
         if depth_ho == 0:
             qm[0] = {"LL": rnd.randrange(4)}
@@ -95,18 +116,16 @@ def make_features(rnd):
         for lv in range(depth_ho + 1, depth_ho + depth + 1):
             qm[lv] = {o: rnd.randrange(8) for o in ("HL", "LH", "HH")}
     n = sx * sy
-    vp = VideoParameters(
-        frame_width=w, frame_height=h, color_diff_format_index=cd, source_sampling=1 if fields and rnd.random() < 0.5 else 0,
-        top_field_first=True, frame_rate_numer=25, frame_rate_denom=1, pixel_aspect_ratio_numer=1, pixel_aspect_ratio_denom=1,
-        clean_width=w, clean_height=h, left_offset=0, top_offset=0, luma_offset=0, luma_excursion=255,
-        color_diff_offset=128, color_diff_excursion=255, color_primaries_index=0, color_matrix_index=0, transfer_function_index=0,
-    )
     return CodecFeatures(
         name="c08", level=0, profile=3 if hq else 0, picture_coding_mode=1 if fields else 0,
         wavelet_index=wi, wavelet_index_ho=wi_ho, dwt_depth=depth, dwt_depth_ho=depth_ho,
         slices_x=sx, slices_y=sy, fragment_slice_count=rnd.choice([0, 0, 1, 2, 3]), lossless=False,
         video_parameters=vp, picture_bytes=n * rnd.choice([24, 40, 64]), quantization_matrix=qm,
     )
+
+
+def geometry_of(cf):
+    return (cf["dwt_depth"], cf["dwt_depth_ho"], cf["slices_x"], cf["slices_y"])
 
 
 def repack_slices(rnd, seq, mag):
@@ -196,27 +215,27 @@ def repack_slices(rnd, seq, mag):
     return stats
 
 
-def make_stream(seed):
-    """-> (bytes, info) or (None, reason)"""
+PATTERNS = [None, None, "sequence_header (. padding_data)+ end_of_sequence", "sequence_header auxiliary_data .* end_of_sequence", "(sequence_header .)+ end_of_sequence"]
+ASYM_DEFAULT_SHARE = 0.08  # streams of the "asym_default" archetype
+MIXED_SHARE = 0.22  # one sequence whose pictures were encoded with different transform / slice parameters
+
+
+def make_part(rnd, cf, first_pn, npics, pattern, mag, major_version=None):
+    """one sequence (fixeddict) of `npics` random pictures with re-packed slice payloads -> (seq, stats) or (None, reason)"""
     from vc2_conformance.encoder import make_sequence
-    from vc2_conformance.bitstream import Stream, autofill_and_serialise_stream
     from vc2_conformance.bitstream import vc2_fixeddicts as fd
     from vc2_conformance.pseudocode.video_parameters import set_coding_parameters
     from vc2_conformance.pseudocode.state import State
 
-    rnd = random.Random(seed)
-    cf = make_features(rnd)
     st = State(picture_coding_mode=cf["picture_coding_mode"])
     set_coding_parameters(st, cf["video_parameters"])
-    npics = rnd.choice([1, 2]) * (2 if cf["picture_coding_mode"] == 1 else 1)
     pics = []
     for p in range(npics):
-        pic = {"pic_num": (pics[0]["pic_num"] + p) if pics else rnd.choice([0, 2, 1000])}
+        pic = {"pic_num": first_pn + p}
         pic["Y"] = [[rnd.randrange(256) for _ in range(st["luma_width"])] for _ in range(st["luma_height"])]
         for c in ("C1", "C2"):
             pic[c] = [[rnd.randrange(256) for _ in range(st["color_diff_width"])] for _ in range(st["color_diff_height"])]
         pics.append(pic)
-    pattern = rnd.choice([None, None, "sequence_header (. padding_data)+ end_of_sequence", "sequence_header auxiliary_data .* end_of_sequence", "(sequence_header .)+ end_of_sequence"])
     try:
         seq = make_sequence(cf, pics, *([pattern] if pattern else []))
     except Exception as e:  # noqa: configuration the encoder refuses
@@ -227,13 +246,122 @@ def make_stream(seed):
                 du[key] = (fd.Padding if key == "padding" else fd.AuxiliaryData)(bytes=bytes(rnd.randrange(256) for _ in range(rnd.randrange(0, 9))))
                 if (key == "padding") != (du["parse_info"]["parse_code"] == 0x30):
                     del du[key]
-    stats = repack_slices(rnd, seq, rnd.choice([3, 40, 1000]))
+        if major_version is not None and "sequence_header" in du:
+            du["sequence_header"]["parse_parameters"]["major_version"] = major_version
+    return seq, repack_slices(rnd, seq, mag)
+
+
+def serialise(seq):
+    from vc2_conformance.bitstream import Stream, autofill_and_serialise_stream
+
     f = io.BytesIO()
+    autofill_and_serialise_stream(f, Stream(sequences=[seq]))
+    return f.getvalue()
+
+
+def read_major_version(unit):
+    """major_version = first exp-Golomb value after the 13 parse_info bytes of a sequence header data unit"""
+    bits = [(b >> (7 - k)) & 1 for b in unit[13:21] for k in range(8)]
+    v, i = 1, 0
+    while bits[i] == 0:
+        v = (v << 1) | bits[i + 1]
+        i += 2
+    return v - 1
+
+
+def split_units(data):
+    """byte strings of the data units (parse_info prefixes located by scanning)"""
+    offs, i = [], data.find(b"BBCD")
+    while i != -1:
+        offs.append(i)
+        i = data.find(b"BBCD", i + 1)
+    return [data[o : (offs[j + 1] if j + 1 < len(offs) else len(data))] for j, o in enumerate(offs)]
+
+
+def fix_offsets(units):
+    """join data units, recomputing next / previous parse offsets from their lengths"""
+    out = []
+    for j, u in enumerate(units):
+        b = bytearray(u)
+        nxt = 0 if u[4] == 0x10 else len(u)
+        prev = len(units[j - 1]) if j > 0 and units[j - 1][4] != 0x10 else 0
+        b[5:9] = nxt.to_bytes(4, "big")
+        b[9:13] = prev.to_bytes(4, "big")
+        out.append(bytes(b))
+    return b"".join(out)
+
+
+def make_mixed_stream(rnd):
+    """ONE sequence whose pictures use different transform / slice parameters (they are per picture, 12.4.1; only
+    the sequence header is fixed): 2-3 parts are encoded and serialised separately -- same video format, profile,
+    picture coding mode, consecutive picture numbers, differing (dwt_depth, dwt_depth_ho, slices_x, slices_y), wavelets,
+    matrices, fragmentation -- and their picture / fragment data units are spliced at byte level behind the
+    first part's sequence header (parse offsets repaired).  All parts are serialised with the same major_version
+    (the highest any of them needs), so that their transform parameters have the same syntax."""
+    base = make_features(rnd)
+    cfs = [base]
+    for _ in range(rnd.choice([1, 1, 2])):
+        for _try in range(20):
+            cf = make_features(rnd, base=base, archetype="asym_default" if rnd.random() < 0.15 else None)
+            if geometry_of(cf) != geometry_of(cfs[-1]):
+                break
+        cfs.append(cf)
+    fields = base["picture_coding_mode"] == 1
+    pn = rnd.choice([0, 2, 1000])
+    mag = rnd.choice([3, 40, 1000])
+    plans = []
+    for cf in cfs:
+        n = (1 if rnd.random() < 0.7 else 2) * (2 if fields else 1)
+        plans.append((cf, pn, n, rnd.choice(PATTERNS), rnd.getrandbits(32)))
+        pn += n
+
+    def build(force):
+        blobs, stats = [], {}
+        for cf, first, n, pattern, sd in plans:
+            seq, st = make_part(random.Random(sd), cf, first, n, pattern, mag, force)
+            if seq is None:
+                return None, st
+            try:
+                blobs.append(split_units(serialise(seq)))
+            except Exception as e:  # noqa
+                return None, "serialiser:" + type(e).__name__
+            for k, v in st.items():
+                stats[k] = stats.get(k, 0) + v
+        return blobs, stats
+
+    blobs, stats = build(None)
+    if blobs is not None:
+        versions = set(read_major_version(b[0]) for b in blobs)
+        if len(versions) > 1:
+            blobs, stats = build(max(versions))
+    if blobs is None:
+        return None, stats
+    units = blobs[0][:-1]
+    for b in blobs[1:]:
+        units += b[1:-1]
+    units.append(blobs[0][-1])
+    info = {"profile": int(base["profile"]), "stats": stats, "frag": max(cf["fragment_slice_count"] for cf in cfs), "fields": base["picture_coding_mode"],
+            "kind": "mixed", "parts": [list(geometry_of(cf)) for cf in cfs]}
+    return fix_offsets(units), info
+
+
+def make_stream(seed):
+    """-> (bytes, info) or (None, reason)"""
+    rnd = random.Random(seed)
+    kind = rnd.random()
+    if kind < MIXED_SHARE:
+        return make_mixed_stream(rnd)
+    cf = make_features(rnd, archetype="asym_default" if kind < MIXED_SHARE + ASYM_DEFAULT_SHARE else None)
+    npics = rnd.choice([1, 2]) * (2 if cf["picture_coding_mode"] == 1 else 1)
+    seq, stats = make_part(rnd, cf, rnd.choice([0, 2, 1000]), npics, rnd.choice(PATTERNS), rnd.choice([3, 40, 1000]))
+    if seq is None:
+        return None, stats
     try:
-        autofill_and_serialise_stream(f, Stream(sequences=[seq]))
+        data = serialise(seq)
     except Exception as e:  # noqa
         return None, "serialiser:" + type(e).__name__
-    return f.getvalue(), {"profile": int(cf["profile"]), "stats": stats, "frag": cf["fragment_slice_count"], "fields": cf["picture_coding_mode"]}
+    return data, {"profile": int(cf["profile"]), "stats": stats, "frag": cf["fragment_slice_count"], "fields": cf["picture_coding_mode"],
+                  "kind": "asym_default" if kind < MIXED_SHARE + ASYM_DEFAULT_SHARE else "plain"}
 
 
 # ------------------------------------------------------------------------------------------------
@@ -343,9 +471,6 @@ def place_slice(state, arrays, s, hq):
 def run_deserialiser(data):
     from vc2_conformance.bitstream import BitstreamReader, Deserialiser, parse_stream
     from vc2_conformance.pseudocode.state import State
-    from vc2_conformance.decoder.transform_data_syntax import initialize_wavelet_data, dc_prediction
-    from vc2_conformance.decoder.picture_syntax import set_quant_matrix
-    from vc2_conformance.pseudocode.parse_code_functions import using_dc_prediction
 
     with Deserialiser(BitstreamReader(io.BytesIO(data))) as des:
         parse_stream(des, State())
@@ -358,8 +483,8 @@ class Reconstruction(Exception):
 
 def reconstruct(context):
     from vc2_conformance.decoder.transform_data_syntax import initialize_wavelet_data, dc_prediction
-    from vc2_conformance.decoder.picture_syntax import set_quant_matrix
     from vc2_conformance.pseudocode.parse_code_functions import using_dc_prediction
+    from vc2_data_tables import QUANTISATION_MATRICES  # third party (Annex D), not the tree under test
 
     units, pics = [], []
     for seq in context["sequences"]:
@@ -386,7 +511,12 @@ def reconstruct(context):
             else:
                 continue
             if not custom_qm:
-                set_quant_matrix(st)  # (the lenient parser leaves a default matrix unset / stale)
+                # the lenient parser leaves a default matrix unset / stale.  The matrix is NOT taken from the
+                # repository's set_quant_matrix (the validator's own function: a fault there would be shared) but
+                # from the third-party table; that this is the matrix (12.4.5.3) prescribes is judged in TLA+
+                # (DeserValidatorTrace!MatrixInForce against the generated DVT_DefaultQM).
+                key = (st["wavelet_index"], st["wavelet_index_ho"], st["dwt_depth"], st["dwt_depth_ho"])
+                st["quant_matrix"] = {lv: dict(o) for lv, o in QUANTISATION_MATRICES[key].items()} if key in QUANTISATION_MATRICES else {}
             if whole or cur is None:
                 cur = {"arrays": {c: initialize_wavelet_data(st, c) for c in ("Y", "C1", "C2")}, "got": 0}
             hq = (st["parse_code"] & 0xF8) == 0xE8
@@ -409,9 +539,43 @@ def reconstruct(context):
                     except TypeError as e:  # a position no slice covered is still None
                         raise Reconstruction("TypeError: %s" % e)
                 a = cur["arrays"]
-                pics.append({"hdr": header_of(st), "qm": quant_of(st), "y": flat_transform(a["Y"]), "c1": flat_transform(a["C1"]), "c2": flat_transform(a["C2"]), "dcres": dcres})
+                pics.append({"hdr": header_of(st), "cqm": custom_qm, "qm": quant_of(st), "y": flat_transform(a["Y"]), "c1": flat_transform(a["C1"]), "c2": flat_transform(a["C2"]), "dcres": dcres})
                 cur = None
     return units, pics
+
+
+_TABLES = None
+
+
+def gen_tables():
+    """DeserValidatorTables.tla generated from vc2_data_tables.QUANTISATION_MATRICES (scratch dir; per process)"""
+    global _TABLES
+    import os
+    from vc2_data_tables import QUANTISATION_MATRICES
+
+    if _TABLES is None or not os.path.exists(_TABLES):
+        rows = []
+        for key in sorted(QUANTISATION_MATRICES, key=lambda k: tuple(int(x) for x in k)):
+            ent = quant_of({"quant_matrix": QUANTISATION_MATRICES[key]})
+            rows.append("<<%s>> :> <<%s>>" % (", ".join(str(int(x)) for x in key), ", ".join("<<%d, %d, %d>>" % tuple(e) for e in ent)))
+        if len(rows) < 100:
+            raise RuntimeError("vc2_data_tables.QUANTISATION_MATRICES has only %d entries" % len(rows))
+        path = os.path.join(tlc.mkscratch("c08tables"), "DeserValidatorTables.tla")
+        with open(path, "w") as f:
+            f.write("------------------------- MODULE DeserValidatorTables -------------------------\n")
+            f.write("(* GENERATED by harness/drivers/c08.py:gen_tables() from vc2_data_tables.QUANTISATION_MATRICES *)\n")
+            f.write("EXTENDS Integers, Sequences, TLC\nDVT_Generated == TRUE\nDVT_DefaultQM ==\n  (   ")
+            f.write("\n   @@ ".join(rows))
+            f.write(")\n=============================================================================\n")
+        _TABLES = path
+    return _TABLES
+
+
+def validate(records):
+    bad, res = trace.validate("DeserValidatorTrace", records, extra_files=[gen_tables()])
+    if any(b["clause"] == "HarnessMatrix" for b in bad):
+        raise RuntimeError("harness fault: deserialised values were dequantised with a matrix other than the one in force: %r" % ([b for b in bad if b["clause"] == "HarnessMatrix"][:3],))
+    return bad, res
 
 
 class Deadline(BaseException):
@@ -496,8 +660,22 @@ def selftest(events, convicted=False):
     du = [list(u) for u in corrupt["dunits"]]
     du[-1][1] += 1
     corrupt["dunits"] = du
-    bad, _ = trace.validate("DeserValidatorTrace", [_slim(good), _slim(bad_ev), _slim(corrupt)])
+    # a default quantisation matrix that both sides agree on but that is not the Annex D one (a fault shared by the
+    # validator and the harness) must be refuted by the generated table
+    dq = next((e for e in events if e["ev"] == "stream" and e["accepted"] and e["des_ok"] and e["recon_ok"] and e["dpics"] and not e["dpics"][0]["cqm"] and e["dpics"][0]["qm"]), None)
+    recs = [_slim(good), _slim(bad_ev), _slim(corrupt)]
+    if dq is not None:
+        shared = dict(dq, tid=4)
+        for side in ("vpics", "dpics"):
+            pics = [dict(p) for p in shared[side]]
+            pics[0]["qm"] = [list(x) for x in pics[0]["qm"]]
+            pics[0]["qm"][0][2] += 1
+            shared[side] = pics
+        recs.append(_slim(shared))
+    bad, _ = trace.validate("DeserValidatorTrace", recs, extra_files=[gen_tables()])
     by = {b["tid"]: b for b in bad if b["alarm"]}
+    if dq is not None and (4 not in by or by[4]["clause"] != "QuantMatrix"):
+        raise RuntimeError("binding self-test failed: a wrong default quantisation matrix shared by both sides accepted: %r" % (bad,))
     if 1 in by:
         if convicted:
             return {"skipped": "reference stream of the self-test is itself flagged (%s); violations were already recorded" % by[1]["clause"]}
@@ -506,7 +684,8 @@ def selftest(events, convicted=False):
         raise RuntimeError("binding self-test failed: deserialiser with wrong sign handling not flagged: %r" % (bad,))
     if 3 not in by or by[3]["clause"] != "UnitFields":
         raise RuntimeError("binding self-test failed: corrupted next_parse_offset accepted: %r" % (bad,))
-    return {"mutant": "BitstreamReader.read_sint negating odd magnitudes (in-process monkeypatch)", "verdict": by[2], "corrupted_field": "deserialiser next_parse_offset + 1 -> clause UnitFields"}
+    return {"mutant": "BitstreamReader.read_sint negating odd magnitudes (in-process monkeypatch)", "verdict": by[2], "corrupted_field": "deserialiser next_parse_offset + 1 -> clause UnitFields",
+            "shared_wrong_default_matrix": "both sides' default matrix entry + 1 -> clause QuantMatrix (table DVT_DefaultQM)" if dq is not None else "no default-matrix picture available"}
 
 
 # ------------------------------------------------------------------------------------------------
@@ -586,6 +765,7 @@ def run(ctx):
     import os
 
     bounded = bounded_direction(ctx)
+    gen_tables()
 
     n = ctx.pick(1500, 25000) // int(os.environ.get("VERIF_SUBSAMPLE") or 1)  # subsample: mutation-sanity runs only
     jobs = [(j + 1, ctx.seed * 100003 + j) for j in range(n)]
@@ -604,7 +784,7 @@ def run(ctx):
 
     chunks = [events[i::parts] for i in range(parts)]
     with ThreadPoolExecutor(parts) as ex:
-        results = list(ex.map(lambda c: trace.validate("DeserValidatorTrace", [_slim(e) for e in c]), chunks))
+        results = list(ex.map(lambda c: validate([_slim(e) for e in c]), chunks))
     bad = []
     for i, (b, res) in enumerate(results):
         ctx.add_tlc(res, "trace validation (DeserValidatorTrace) part %d/%d" % (i + 1, parts))
@@ -645,6 +825,29 @@ def run(ctx):
             reasons["validator:" + e["vexc"]] = reasons.get("validator:" + e["vexc"], 0) + 1
     if npics == 0 or styles.get("tight", 0) == 0 or styles.get("loose", 0) == 0:
         raise RuntimeError("vacuous: no pictures / slice styles compared: %r" % (styles,))
+    # spread of the recorded space (projection only): sequences whose pictures differ in transform / slice
+    # parameters; pictures relying on the Annex D default matrix, by kind of wavelet pair
+    def hv(p, k):
+        return dict((a, b) for a, b in p["hdr"])[k]
+
+    mixed = 0
+    for e in accepted:
+        geo = [tuple(hv(p, k) for k in ("dwt_depth", "dwt_depth_ho", "slices_x", "slices_y")) for p in e["vpics"]]
+        if e["info"].get("kind") == "mixed" and any(a != b for a, b in zip(geo, geo[1:])):
+            mixed += 1
+    dflt = {"symmetric": 0, "asymmetric_with_ho_levels": 0, "asymmetric_without_ho_levels": 0, "custom": 0}
+    for e in accepted:
+        for p in e["dpics"]:
+            if p["cqm"]:
+                dflt["custom"] += 1
+            elif hv(p, "wavelet_index") == hv(p, "wavelet_index_ho"):
+                dflt["symmetric"] += 1
+            elif hv(p, "dwt_depth_ho") > 0:
+                dflt["asymmetric_with_ho_levels"] += 1
+            elif hv(p, "dwt_depth") > 0 and any(p[c] for c in ("y", "c1", "c2")):
+                dflt["asymmetric_without_ho_levels"] += 1
+    if mixed == 0 or min(dflt.values()) == 0:
+        raise RuntimeError("vacuous: sequences with mixed transform parameters %d, pictures by matrix source %r" % (mixed, dflt))
     s0 = accepted[0]
     ctx.coverage.update(
         {
@@ -661,6 +864,9 @@ def run(ctx):
             "slice_styles": styles,
             "profiles": {"ld": sum(1 for e in accepted if e["info"]["profile"] == 0), "hq": sum(1 for e in accepted if e["info"]["profile"] == 3)},
             "fragmented": sum(1 for e in accepted if e["info"]["frag"]),
+            "sequences_with_differing_transform_parameters": mixed,
+            "pictures_by_quant_matrix_source": dflt,
+            "default_matrix_table": "DVT_DefaultQM generated from vc2_data_tables.QUANTISATION_MATRICES (third party), judged in DeserValidatorTrace!MatrixInForce",
             "spec_disagreements": {"trace_logged_clauses": logged, "bounded_read_spec_vs_code": bounded["spec_disagreements"]},
             "bounded_read_cases": bounded["cases"],
             "binding_selftest": dict(st, bounded_read_mutant_hits=bounded["selftest_hits"]),
@@ -670,7 +876,8 @@ def run(ctx):
     ctx.level = "model_checking"
     ctx.assumptions += [
         "streams are produced by the library's encoder/serialiser for random tiny configurations and re-packed slice payloads; only streams the validator accepts are in scope",
-        "the deserialiser's raw slice values are dequantised / placed / DC-predicted with the repository's own helper functions (faults there are C12/C13's)",
+        "the deserialiser's raw slice values are dequantised / placed with the repository's own inverse_quant / slice geometry functions (faults there are C12/C13's); default quantisation matrices come from the third-party vc2_data_tables (TLA+ table), DC prediction is redone in TLA+",
+        "sequences whose pictures differ in transform / slice parameters are spliced at byte level from separately serialised parts (the library's encoder only produces uniform sequences)",
         "the validator is observed through in-process wrappers of decoder.stream.parse_info and picture_decode",
         "|coefficient| <= 1000 and qindex < 40 so that dequantised values stay below 2^31 for TLC",
     ]
@@ -700,5 +907,5 @@ def replay(case_):
         o = bounded_case(tuple(case_["bounded"]))
         return {"violations": [o] if (o["vv"] != o["dv"] or o["vpos"] != o["dpos"]) else [], "observed": o}
     ev = case((1, case_["seed"]))
-    bad, _ = trace.validate("DeserValidatorTrace", [_slim(ev)])
+    bad, _ = validate([_slim(ev)])
     return {"violations": [b for b in bad if b["alarm"]], "info": ev.get("info"), "accepted": ev.get("accepted")}
